@@ -111,7 +111,7 @@ func c03PqmrWhole(c *core.Ctx, r *core.Report) {
 			// a `true` answer only after the walk
 			ok := true
 			for _, ret := range core.Returns(callee) {
-				if k, isK := ret.Results[0].(*ssa.Const); isK && k.Value != nil && k.Value.String() == "false" {
+				if k, isK := core.RetResult(ret, 0).(*ssa.Const); isK && k.Value != nil && k.Value.String() == "false" {
 					continue
 				}
 				if !lp.Header.Dominates(ret.Block()) || lp.Body[ret.Block()] {
